@@ -899,6 +899,8 @@ class _SFTPFileCopier(_SFTPParallelIO[int]):
             else:
                 ranges = _request_nonsparse_range(0, self._total_bytes)
 
+            data_end = 0
+
             if self._srcfs == self._dstfs and \
                     isinstance(self._srcfs, SFTPClient) and \
                     self._srcfs.supports_remote_copy:
@@ -909,6 +911,7 @@ class _SFTPFileCopier(_SFTPParallelIO[int]):
                         offset, length, offset)
 
                     self._bytes_copied += length
+                    data_end = offset + length
 
                     if self._progress_handler:
                         self._progress_handler(self._srcpath, self._dstpath,
@@ -916,6 +919,8 @@ class _SFTPFileCopier(_SFTPParallelIO[int]):
                                                self._total_bytes)
             else:
                 async for self._offset, self._bytes_left in ranges:
+                    data_end = self._offset + self._bytes_left
+
                     async for _, datalen in self.iter():
                         self._bytes_copied += datalen
 
@@ -931,6 +936,12 @@ class _SFTPFileCopier(_SFTPParallelIO[int]):
                     setattr(exc, 'offset', self._bytes_copied)
 
                     raise exc
+
+            if self._sparse and data_end < self._total_bytes:
+                # The source ends in a hole, so extend the destination
+                # to the full size of the source
+                await self._dstfs.setstat(self._dstpath,
+                                          SFTPAttrs(size=self._total_bytes))
         finally:
             if self._src: # pragma: no branch
                 await self._src.close()
